@@ -272,9 +272,6 @@ impl Check for C06 {
         obs.excluded = case.excluded as u64 + case.columnar_off as u64;
         let (q, parts) = queries(case);
         let mut trig: Vec<&str> = Vec::new();
-        if has_right_full(&case.base) {
-            trig.push("right_full_join");
-        }
         if has_self_join(&case.base) {
             trig.push("self_join");
         }
